@@ -5286,7 +5286,10 @@ class DfaCompileCtx:
         Convert the AST into a (potentially optimized) DFA.
         """
 
-        self.dfa = self.ast.convert(defaultdict(lambda: self.generic_fail_state))
+        try:
+            self.dfa = self.ast.convert(defaultdict(lambda: self.generic_fail_state))
+        except RecursionError:
+            raise IllegalASTStateError("Program too complex to convert (Python recursion limit exceeded, e.g. by a very long regex)", self.ast)
         self.dfa.add(self.generic_fail_state)
 
         while self._optimize_remove_inaccessible() + self._optimize_simplify_transition_matches() + self._optimize_shortcircuit_fallthroughs():
